@@ -333,6 +333,22 @@ Theorem C16_total : forall U W f args, apply U W f args = Panic ->
 Proof. exact apply_panic. Qed.
 Print Assumptions C16_total.
 
+(* ================= purity ================= *)
+(* The model of a call is a function of the call, the Unicode table and the environment/file
+   map only: in any sequence of calls (one process, one shared function table) the result of a
+   call does not depend on the calls before or after it.  That the implementation's process-wide
+   FuncMap behaves like this (no template constructor or config rendering installs a wrapper)
+   is NOT proved; it is checked on every run by the history stream of harness/checks/c16.py. *)
+Definition run_calls (U : N -> uinfo) (W : world) (calls : list (fn * list arg)) : list res :=
+  map (fun c => apply U W (fst c) (snd c)) calls.
+Theorem C16_call_independent_of_history : forall U W pre c post,
+  nth (length pre) (run_calls U W (pre ++ c :: post)) Err = apply U W (fst c) (snd c).
+Proof.
+  intros. unfold run_calls. rewrite map_app, app_nth2; rewrite map_length; [|lia].
+  rewrite Nat.sub_diag. reflexivity.
+Qed.
+Print Assumptions C16_call_independent_of_history.
+
 (* Non-vacuity: the model computes the documented examples (and the fixed first-rune cases
    with a two-entry Unicode table: U+00E9 is a lower-case letter with upper case U+00C9). *)
 Definition Uex (r : N) : uinfo :=
